@@ -2,6 +2,7 @@ package main
 
 import (
 	"fmt"
+	"golang.org/x/tools/go/ssa"
 	"strings"
 )
 
@@ -403,4 +404,100 @@ func ruleRawReadRestored(c *Check, rule string) {
 		c.Ok(rule, fnReadDBI+"/rawread-restored", fmt.Sprintf("on all %d paths that switch txn.RawRead on, a deferred function restores the saved mode", n), c.P.Pos(fn.Pos()))
 	}
 	c.Floor(rule, n, 1, "paths setting RawRead")
+}
+
+// C11-R8b RAWREAD-ONLY-IN-VIEW: raw-read mode makes cursor results alias LMDB
+// pages. That is safe in a read-only transaction; in a write transaction the
+// strategies' own writes move the pages under the keys they still hold. The
+// complete set of writers of Txn.RawRead is enumerated: readDBI (saves and
+// restores, checked above) and SendOnce's transaction body, whose value must be
+// false on every path that starts anything but env.View.
+func ruleRawReadWriters(c *Check, rule string) {
+	ws := fieldWriters(c.P, "Txn", "RawRead")
+	sendTxn := fnSendOnce + "$txn"
+	n := 0
+	for fnName, ins := range ws {
+		switch {
+		case fnName == fnReadDBI || strings.HasPrefix(fnName, fnReadDBI+"$"):
+			n += len(ins)
+			continue
+		case fnName == sendTxn:
+			n += len(ins)
+		default:
+			for _, in := range ins {
+				st, ok := in.(*ssa.Store)
+				if ok {
+					if k, isC := st.Val.(*ssa.Const); isC && k.Value != nil && k.Value.String() == "false" {
+						n++
+						continue
+					}
+				}
+				c.Bad(rule, fnName+"/rawread-writer", "txn.RawRead is switched by a function outside the enumerated set (readDBI with restore, SendOnce's read-only transaction): in a write transaction, keys returned by cursors then alias pages the same transaction rewrites", c.P.InstrPos(in), nil)
+			}
+		}
+	}
+	fn, paths := c.walkFn(rule, fnSendOnce, WalkConfig{Memo: true,
+		KeepEvent: func(e *Event) bool {
+			return e.Kind == "ret" || e.Kind == "store" && strings.Contains(e.Addr, "RawRead") || e.Kind == "call" && strings.Contains(e.Callee, "lmdb.Env)")
+		},
+		KeepAtom: func(a Atom) bool { return false }})
+	if paths == nil {
+		return
+	}
+	cl := c.P.Func(sendTxn)
+	if cl == nil {
+		c.Undecided(rule, sendTxn, "SendOnce's transaction body not found", c.P.Pos(fn.Pos()))
+		return
+	}
+	// what the body stores into txn.RawRead
+	var src string
+	nst := 0
+	for _, in := range ws[sendTxn] {
+		st, ok := in.(*ssa.Store)
+		if !ok {
+			continue
+		}
+		nst++
+		switch v := st.Val.(type) {
+		case *ssa.Const:
+			src = "const:" + v.Value.String()
+		case *ssa.UnOp:
+			if fv, ok := v.X.(*ssa.FreeVar); ok {
+				src = closureBinding(fn, cl, fv.Name())
+			}
+		}
+	}
+	if nst != 1 || src == "" {
+		c.Undecided(rule, sendTxn+"/rawread", "the transaction body does not set txn.RawRead exactly once from a constant or a captured variable", c.P.Pos(cl.Pos()))
+		return
+	}
+	nView, nWrite, bad := 0, 0, 0
+	for i := range paths {
+		p := &paths[i]
+		val := src
+		for j := range p.Events {
+			e := &p.Events[j]
+			if e.Kind == "store" && strings.HasPrefix(src, "alloc:") && e.Addr == "&"+src {
+				val = e.Val
+			}
+			if e.Kind != "call" || len(e.Args) == 0 || e.Args[len(e.Args)-1] != "closure:"+sendTxn {
+				continue
+			}
+			isView := strings.HasPrefix(e.Callee, "(*lmdb.Env).View")
+			if isView {
+				nView++
+				continue
+			}
+			nWrite++
+			if val != "const:false" {
+				bad++
+				c.Bad(rule, fnSendOnce+"/rawread-in-write-txn", fmt.Sprintf("the snapshot transaction is started with %s while its body switches txn.RawRead to %s: mainToShadow's IterUpdate then holds keys that alias pages it rewrites (deletion markers are stored under garbage keys)", e.Callee, val), c.pathPos(p), describe(c, p))
+			}
+		}
+	}
+	if bad == 0 {
+		c.Ok(rule, fnSendOnce+"/rawread-only-in-view", fmt.Sprintf("%d writers of Txn.RawRead enumerated; SendOnce's body takes the mode from %s, which is false on all %d path classes that start a write transaction (true only under env.View: %d)", n, src, nWrite, nView), c.P.Pos(fn.Pos()))
+	}
+	c.Floor(rule, nWrite, 1, "SendOnce paths starting a write transaction")
+	c.Floor(rule, nView, 1, "SendOnce paths starting a read-only transaction")
 }
